@@ -13,6 +13,8 @@ pub const IDENTS: &[&str] = &[
     "mixedCase", "X", "Ab", "lower", "UPPER",
     // prelude look-alikes
     "Some", "None", "Ok", "Err", "Default", "Const", "Type", "Box", "Self_", "String", "Vec", "Option",
+    // ordinary names whose snake_case form is a keyword
+    "Super", "Crate", "Match", "Loop", "Async", "Move", "Dyn", "Ref",
     // non-ASCII
     "Straße", "Ünï", "Éclair", "Ñandú", "Öl2", "Straße3", "Größe10",
 ];
